@@ -320,7 +320,7 @@ def run_check(prop, tier="quick", seed=0, replay=None, jobs=None, cap_s=None, qu
         confirmed.append(c)
     confirmed.extend(new_classes[40:])
 
-    replay_dir = os.path.join(VERIF, "replays")
+    replay_dir = os.environ.get("VERIF_REPLAY_DIR") or os.path.join(VERIF, "replays")
     lines = []
     for c in confirmed:
         os.makedirs(replay_dir, exist_ok=True)
@@ -389,7 +389,7 @@ def write_evidence(mod, prop, tier, seed, total, units, done, capped, t_start, n
         wall_s=round(time.time() - t_start, 2),
         violations=nviol,
     )
-    d = os.path.join(VERIF, "evidence")
+    d = os.environ.get("VERIF_EVIDENCE_DIR") or os.path.join(VERIF, "evidence")  # (override used only by mutation demonstrations)
     os.makedirs(d, exist_ok=True)
     tmp = os.path.join(d, prop + ".json.tmp")
     with open(tmp, "w") as f:
